@@ -885,6 +885,7 @@ package modfile
 //@   ensures [C20] progress: len(in.remaining) < old(len(in.remaining)) || in.token.kind == 0 - 1
 //@   ensures forall l *Line :: !fresh(l) ==> l.Start == old(l.Start) && l.End == old(l.End)
 //@   ensures forall b *LineBlock :: !fresh(b) ==> b.Start == old(b.Start) && b.LParen.Pos == old(b.LParen.Pos) && b.RParen.Pos == old(b.RParen.Pos)
+//@   ensures oldarrays_kept(result.Line)
 //@   loop 0:
 //@     invariant PARSEST(in) && in.complete == old(in.complete) && in.file == old(in.file) && x != nil && fresh(x) && fresharr(x.Line)
 //@     invariant x.Start == start && x.Token == token && x.LParen.Pos == lparen.pos && lparen.endPos.Byte <= in.token.pos.Byte
@@ -892,6 +893,7 @@ package modfile
 //@     invariant len(in.remaining) <= old(len(in.remaining))
 //@     invariant forall l *Line :: !fresh(l) ==> l.Start == old(l.Start) && l.End == old(l.End)
 //@     invariant forall b *LineBlock :: !fresh(b) ==> b.Start == old(b.Start) && b.LParen.Pos == old(b.LParen.Pos) && b.RParen.Pos == old(b.RParen.Pos)
+//@     invariant oldarrays_kept(x.Line)
 //@     decreases len(in.remaining) + (if in.token.kind == 0 - 1 then 0 else 1)
 //@   props C20
 
@@ -899,6 +901,9 @@ package modfile
 //@ spec macro STMTPOS(e Expr) bool =
 //@     (ISLINE(e) ==> ifaceptr(e) != 0 && !ifaceptr(e, "*Line").InBlock && len(ifaceptr(e, "*Line").Token) >= 1 && ifaceptr(e, "*Line").Start.Byte <= ifaceptr(e, "*Line").End.Byte)
 //@     && (ISBLOCK(e) ==> BLOCKPOS(ifaceptr(e, "*LineBlock")) && len(ifaceptr(e, "*LineBlock").Token) >= 1)
+//@ # every top-level statement has at least one token (its verb)
+//@ spec macro STMTTOK(e Expr) bool =
+//@     (ISLINE(e) ==> ifaceptr(e) != 0 && len(ifaceptr(e, "*Line").Token) >= 1) && (ISBLOCK(e) ==> ifaceptr(e) != 0 && len(ifaceptr(e, "*LineBlock").Token) >= 1 && (forall j int :: 0 <= j && j < len(ifaceptr(e, "*LineBlock").Line) ==> ifaceptr(e, "*LineBlock").Line[j] != nil))
 //@ func (*input).parseStmt
 //@   requires PARSEST(in) && in.file != nil && in.token.kind != 0 - 1
 //@   modifies input.remaining, input.pos, Position.Line, Position.LineRune, Position.Byte, input.tokenStart, input.token, token.kind, token.text, token.pos, token.endPos
@@ -910,6 +915,7 @@ package modfile
 //@   ensures [C20] progress: len(in.remaining) < old(len(in.remaining)) || in.token.kind == 0 - 1
 //@   ensures forall l *Line :: !fresh(l) ==> l.Start == old(l.Start) && l.End == old(l.End)
 //@   ensures forall b *LineBlock :: !fresh(b) ==> b.Start == old(b.Start) && b.LParen.Pos == old(b.LParen.Pos) && b.RParen.Pos == old(b.RParen.Pos)
+//@   ensures oldarrays_kept(ifaceptr(in.file.Stmt[len(in.file.Stmt)-1], "*LineBlock").Line)
 //@   loop 0:
 //@     invariant PARSEST(in) && in.complete == old(in.complete) && in.file == old(in.file) && in.file != nil && in.file.Stmt == old(in.file.Stmt) && len(tokens) >= 1
 //@     invariant start.Byte == old(in.token.pos.Byte) && start.Byte <= end.Byte && end.Byte <= in.token.pos.Byte
@@ -917,4 +923,63 @@ package modfile
 //@     invariant forall l *Line :: !fresh(l) ==> l.Start == old(l.Start) && l.End == old(l.End)
 //@     invariant forall b *LineBlock :: !fresh(b) ==> b.Start == old(b.Start) && b.LParen.Pos == old(b.LParen.Pos) && b.RParen.Pos == old(b.RParen.Pos)
 //@     decreases len(in.remaining) + (if in.token.kind == 0 - 1 then 0 else 1)
+//@   props C20
+
+//@ iface Expr.Comment(e Expr) *Comments
+//@   ensures result != nil && !fresh(result)
+
+//@ # parseFile: consumes the whole input; every statement it builds has ordered positions
+//@ func (*input).parseFile
+//@   requires PARSEST(in)
+//@   modifies input.file, input.remaining, input.pos, Position.Line, Position.LineRune, Position.Byte, input.tokenStart, input.token, token.kind, token.text, token.pos, token.endPos
+//@   modifies input.comments, []Comment, input.parseErrors, []Error, Comments.Before, []*Line, FileSyntax.Stmt, []Expr
+//@   allocates
+//@   ensures [C20] state_kept: PARSEST(in) && in.complete == old(in.complete)
+//@   ensures [C20] whole_input_consumed: in.token.kind == 0 - 1 && len(in.remaining) == 0
+//@   ensures [C20] tree_built: in.file != nil && fresh(in.file) && (forall k int :: 0 <= k && k < len(in.file.Stmt) ==> STMTTOK(in.file.Stmt[k]))
+//@   loop 0:
+//@     invariant PARSEST(in) && in.complete == old(in.complete) && in.file != nil && fresh(in.file)
+//@     invariant cb != nil ==> fresh(cb)
+//@     invariant forall k int :: 0 <= k && k < len(in.file.Stmt) ==> STMTTOK(in.file.Stmt[k])
+//@     decreases len(in.remaining) + (if in.token.kind == 0 - 1 then 0 else 1)
+//@   props C20
+
+//@ func parse
+//@   trusted "drives readToken/parseFile/assignComments and turns the panics of in.Error into the returned error list with recover (panic/recover control flow is outside the subset); the statement shape it returns is the verified postcondition of parseFile, assignComments only attaches comments"
+//@   allocates
+//@   modifies *
+//@   ensures [C20] result_or_errors: (err == nil) == (f != nil)
+//@   ensures [C20] statements_have_verbs: err == nil ==> (forall k int :: 0 <= k && k < len(f.Stmt) ==> STMTTOK(f.Stmt[k]))
+//@   props C20
+
+//@ # ---------- lax mode ignores what it does not know (C20) ----------
+//@ func (*File).add
+//@   trusted "the per-directive switch (450 lines of string handling); here only its frame: it fills the typed lists and may rewrite token strings in place, but leaves the shape of the syntax tree alone"
+//@   modifies *ErrorList, []Error, File.Module, File.Go, File.Toolchain, File.Godebug, File.Require, File.Exclude, File.Replace, File.Retract, File.Tool
+//@   modifies []*Godebug, []*Require, []*Exclude, []*Replace, []*Retract, []*Tool, []string
+//@   allocates
+//@   props C20
+//@ func (*File).fixRetract
+//@   trusted "post-pass over retract directives; here only its frame"
+//@   modifies *
+//@   allocates
+//@   props C20
+//@ func parseToFile$1
+//@   modifies *
+//@   allocates
+//@   props C20
+//@ # blocks whose header has more than one token are unknown block types: in both modes none of their lines is
+//@ # interpreted (strict mode reports them); a line is interpreted under its own first token
+//@ func parseToFile
+//@   modifies *
+//@   allocates
+//@   call (*File).add requires [C20] unknown_blocks_ignored: arg_block != nil ==> len(arg_block.Token) == 1 && arg_verb == arg_block.Token[0]
+//@   call (*File).add requires [C20] line_verb: arg_block == nil ==> arg_line != nil && len(arg_line.Token) >= 1 && arg_verb == arg_line.Token[0]
+//@   let STMTS = fs.Stmt @before loop 0
+//@   loop 0:
+//@     invariant 0 - 1 <= @idx && @idx < len(fs.Stmt) && fs != nil && f != nil && fs.Stmt == STMTS
+//@     invariant forall k int :: 0 <= k && k < len(fs.Stmt) ==> STMTTOK(fs.Stmt[k])
+//@   loop 1:
+//@     invariant 0 - 1 <= @idx && @idx < len(x.Line) && x != nil && f != nil && fs != nil && len(x.Token) == 1 && fs.Stmt == STMTS
+//@     invariant forall k int :: 0 <= k && k < len(fs.Stmt) ==> STMTTOK(fs.Stmt[k])
 //@   props C20
